@@ -13,9 +13,9 @@ NA = {
 }
 TECH = {
  'C01': 'static analysis: constant-table lint (sortedness under the search comparator, XSLT 1.0 vocabulary), producer/consumer switch exhaustiveness, finite-domain interpretation of the xsl:element namespace fix-up and of literal-result namespace processing; frozen protocol table of the dynamic context each instruction establishes (who-may-call on the scope stacks, CFG must-pass-through); parameter-binding rule',
- 'C02': 'static analysis: keyword-table lint, op-code producer-subset-of-consumer over the call graph, finite-domain interpretation of the comparison dispatch and of the IEEE arithmetic primitives, grammar-recursion rule, position-cache coherence over the CFG; interpretation of substring(), of the node-set comparison kernels and of the string functions together with the DOMStringHelper routines they call, on all small inputs; interpretation of the tokenizer on all short strings and of the recursive-descent expression parser on bounded token sequences, against a reference XPath 1.0 lexer and recognizer; interpretation of the string-to-number validation on all short strings and of the twelve axis functions on all context nodes of small abstract trees',
- 'C03': 'static analysis: interprocedural exception-escape fixpoint, sibling handler agreement, format-string buffer bounds, guarded float-to-int casts and integer divisions, CFG must-pass-through rules',
- 'C04': 'static analysis: constant-table lint + finite-domain interpretation of predicate ASTs, of the escape functions and of the CDATA sectioning code, CFG guard accounting for buffer stores, template-instantiation consistency; interpretation of the output stream (buffer, flush, transcoding retry loop) against a model transcoder on all bounded write sequences; interpretation of the UTF-16 byte-order choice for both byte orders',
+ 'C02': 'static analysis: keyword-table lint, op-code producer-subset-of-consumer over the call graph, finite-domain interpretation of the comparison dispatch and of the IEEE arithmetic primitives, grammar-recursion rule, position-cache coherence over the CFG; interpretation of substring(), of the node-set comparison kernels and of the string functions together with the DOMStringHelper routines they call, on all small inputs; interpretation of the tokenizer on all short strings and of the recursive-descent expression parser on bounded token sequences, against a reference XPath 1.0 lexer and recognizer; interpretation of the string-to-number validation on all short strings and of the twelve axis functions on all context nodes of small abstract trees; end-to-end interpretation of location paths (compile to a real op-code map, XPath::step, literal position predicates) against a reference evaluator',
+ 'C03': 'static analysis: interprocedural exception-escape fixpoint, sibling handler agreement, format-string buffer bounds, guarded float-to-int casts and integer divisions, CFG must-pass-through rules; emptied-by-reset rule for members holding handles into the per-transformation object factory',
+ 'C04': 'static analysis: constant-table lint + finite-domain interpretation of predicate ASTs, of the escape functions and of the CDATA sectioning code, CFG guard accounting for buffer stores, template-instantiation consistency; interpretation of the output stream (buffer, flush, transcoding retry loop) against a model transcoder on all bounded write sequences; interpretation of the UTF-16 byte-order choice for both byte orders; interpretation of the comment / processing-instruction content fix-ups on all short strings',
  'C06': 'static analysis: write-set (effect) analysis over the CHA call graph versus the reset closure; CFG dominance of the reset guard',
  'C07': 'static analysis: effect analysis (writes to static storage and to shared classes) over the CHA call graph with cut sets',
  'C08': 'static analysis: template-argument comparison of serializer instantiations, who-may-call, HTML element table lint, bounded interpretation of the indenting serializer\'s event handlers over all event sequences (abstract output tokens), of the HTML serializer likewise, and of the text formatter on all short strings',
@@ -23,9 +23,9 @@ TECH = {
  'C10': 'static analysis: exhaustive switch evaluation of match-score constants; finite-domain interpretation of getTargetData and of the lookup-list builders on all small inputs; structural agreement of the two findTemplate branches; interpretation of the construction of the built-in rules over an object model of stylesheet elements',
  'C11': 'static analysis: sibling dispatch agreement across the six executeMore switches (labels, kernels, canonical conversions); append protocol of the string-result overloads; wrapper rule for the typed helper families; body equality modulo the sink for the 50 string / character-events overload pairs of the conversion library',
  'C12': 'static analysis: CFG must-pass-through of the order flag in axis functions; who-may-call for raw addNode; dominating-justification rule for whole-range transfers in the ordered merge; interpretation of the ordered insert (binary and linear search, predicates) on all bounded insertion sequences over two documents, and of the structural document-order comparison on all node pairs of small trees',
- 'C13': 'static analysis: who-may-call for strip-unaware text access; CFG guard dominance of text sinks; interpretation of the declaration ordering; return-value provenance of the strip decision chain',
- 'C16': 'static analysis: stable_sort call rule + finite-domain interpretation of the key comparator',
- 'C19': 'static analysis: destructor-reachable allocation over the call graph, placement-new pairing, manager agreement, new/delete confinement, ownership analysis of pointer containers (removal and keyed-store sites)',
+ 'C13': 'static analysis: who-may-call for strip-unaware text access; CFG guard dominance of text sinks; interpretation of the declaration ordering; return-value provenance of the strip decision chain; pattern step verdicts only from NodeTester',
+ 'C16': 'static analysis: stable_sort call rule + finite-domain interpretation of the key comparator and of the per-(key, node) value caches; scope and re-entrancy rules for the sorter',
+ 'C19': 'static analysis: destructor-reachable allocation over the call graph, placement-new pairing, manager agreement, new/delete confinement, ownership analysis of pointer containers (removal and keyed-store sites), construct-to-owner path rule for XalanConstruct',
 }
 import re
 claimed = sorted(p[:-3].upper() for p in os.listdir(os.path.join(V, 'xv', 'rules')) if re.match(r'^c\d\d\.py$', p))
